@@ -336,7 +336,14 @@ def r3_macro_one_name_per_variant(ctx):
                sorted(str(v) for v in vals), 'one and the same' if ok else 'DIFFERENT (or unrecognised) strings for parsing and for naming'))
 
 
+def r4_required_stays_required(ctx):
+    from .c19 import r14_an_explicit_call_is_recorded
+    r14_an_explicit_call_is_recorded(ctx, 'C18.R4', 'shared with C19.R14 — "a missing required key is an error, not a default" holds for a config type only if the `required()` the '
+                                     'user wrote reaches the compiler. ')
+
+
 def check(ctx):
+    r4_required_stays_required(ctx)
     r1_merge_chain(ctx)
     r2_errors(ctx)
     r3_macro_one_name_per_variant(ctx)
